@@ -192,6 +192,9 @@ def cases(tier, seed):
         # re-arms it (AA-7), the connection is closed 10 s after the fault
         for mlabel, mraw in (('type@0=57', b'\x57' + seeds(state)[0][1][1:]), ('tiny-0a-empty', bytes([0x0A, 0, 0, 0, 0, 0]))):
             yield {'state': state, 'seed': seeds(state)[0][0] if mlabel.startswith('type') else 'tiny', 'mut': mlabel, 'bytes': mraw, 'ending': 'chatter'}
+            # the peer is already gone when the provider tries to answer: the A-ABORT cannot be written any more, the local user
+            # still has to be told and the provider has to end up idle
+            yield {'state': state, 'seed': seeds(state)[0][0] if mlabel.startswith('type') else 'tiny', 'mut': mlabel, 'bytes': mraw, 'ending': 'send-fails'}
         for sname, raw in seeds(state):
             for k in (1, 5, 6, 7, len(raw) - 1, len(raw)):
                 yield {'state': state, 'seed': sname, 'mut': 'trunc-%d' % k, 'bytes': raw[:k], 'ending': 'reset'}
@@ -251,7 +254,7 @@ def run_case(case):
     role, pre = prefix(state)
     stream = case['bytes']
     chunks, rest = ref_pdu.split_stream(stream)
-    hist = list(pre) + [('bytes', c) for c in chunks]
+    hist = list(pre) + ([('gone',)] if case['ending'] == 'send-fails' else []) + [('bytes', c) for c in chunks]
     if rest:
         hist.append(('bytes', rest))
     n_pre = len(pre)
@@ -259,6 +262,8 @@ def run_case(case):
         hist.append(('close',))
     elif case['ending'] == 'reset':
         hist.append(('reset',))       # the peer goes away without reading what the provider answered: recv() fails
+    elif case['ending'] == 'send-fails':
+        hist.append(('reset',))
     elif case['ending'] == 'chatter':
         hist += [('tick', 6.0), ('bytes', bytes([0x0B, 0, 0, 0, 0, 2, 1, 2])), ('tick', 4.5)]
     else:
@@ -304,6 +309,8 @@ def run_case(case):
             continue
         if case['ending'] == 'chatter' and i > n_pre + len(chunks) + (1 if rest else 0):
             continue        # judged at the end (elapsed time since ARTIM was armed)
+        if case['ending'] == 'send-fails':
+            continue        # nothing can be written: judged at the end (idle, closed, user told)
         ev = st['ev']
         if ev[0] == 'bytes':
             is_chunk = (i - n_pre - 1) < len(chunks)
@@ -338,7 +345,7 @@ def run_case(case):
         else:
             m = matched
     if fin['status'] == 'quiescent-end':
-        if case['ending'] in ('close', 'reset') and (fin['state'] != 0 or fin['sock'] == 'open'):
+        if case['ending'] in ('close', 'reset', 'send-fails') and (fin['state'] != 0 or fin['sock'] == 'open'):
             viol.append((sig + ':not-idle-after-close', 'after the peer closed: Sta%d socket %s (%s)' % (fin['state'] + 1, fin['sock'], where)))
         if case['ending'] == 'chatter' and ok_model and m[2] and (fin['state'] != 0 or fin['sock'] == 'open'):
             viol.append((sig + ':artim-rearmed', 'the fault left the provider with ARTIM armed; 6 s later the peer sent another stray PDU, and 10.5 s after the '
